@@ -331,7 +331,23 @@ def judge_readers(case):
     fails = []
     with warnings.catch_warnings():
         warnings.simplefilter('ignore')
-        readers = [MosReader.from_string(d) for d in case['docs']]
+        src = case.get('source', 'string')
+        import os
+        from vlib import fakes3
+        work = env.ensure_dir(os.path.join(env.WORK_DIR, f'c13-{os.getpid()}'))
+        fake = fakes3.FakeS3({'bkt': {f'k/{n:03d}.mos.xml': d.encode('utf-8') for n, d in enumerate(case['docs'])}})
+        if src == 'file':
+            readers = []
+            for n, d in enumerate(case['docs']):
+                with open(os.path.join(work, f'{n:03d}.mos.xml'), 'w', encoding='utf-8') as f:
+                    f.write(d)
+                readers.append(MosReader.from_file(os.path.join(work, f'{n:03d}.mos.xml')))
+        elif src == 's3':
+            with fake:
+                readers = [MosReader.from_s3('bkt', f'k/{n:03d}.mos.xml') for n in range(len(case['docs']))]
+        else:
+            readers = [MosReader.from_string(d) for d in case['docs']]
+        fake.__enter__()        # restored objects of S3 readers are fetched again at merge time
         fresh = MosCollection.from_strings(case['docs'], allow_incomplete=True)
         start = str(fresh)
         fresh.merge(strict=False)
@@ -347,6 +363,7 @@ def judge_readers(case):
                 fails.append(Failure(PROP, 'C13|readers-reused|merge-differs-from-fresh-readers',
                                      f'collection #{n} built from the same MosReader objects merges to a '
                                      'different running order than freshly built readers', want, str(mc)))
+        fake.__exit__()
     return fails
 
 
@@ -356,8 +373,8 @@ def shard_readers(args):
     col = Collector(PROP)
 
     def one(c):
-        case = {'docs': c['docs']}
-        col.record(case, len(c['docs']) >= 3, ['readers-in-two-collections'], judge_readers(case),
+        case = {'docs': c['docs'], 'source': ('string', 'file', 's3')[h64(*c['docs']) % 3]}
+        col.record(case, len(c['docs']) >= 3, ['readers-in-two-collections', 'readers:' + case['source']], judge_readers(case),
                    key=h64(*c['docs']))
     drive.run_given(colgen.collection(min_msgs=1, max_msgs=6, faults='some', rich=False), one, n, seed)
     return col
